@@ -83,6 +83,7 @@ type ClusterCfg struct {
 	Perms      map[string][]*checker.Permissions
 	NdAccounts int // accounts per node in nd wallet "Wallet 1" (0 = none)
 	Specs      []WalletSpec
+	NameFmt    string // instance / peer names; default "signer-%02d"
 }
 
 // NewCluster builds n instances, each with its own wallet store, badger directory and services.
@@ -96,9 +97,12 @@ func NewCluster(t *testing.T, rc *RunCtx, s *Sched, cfg ClusterCfg) *Cluster {
 		c.Perms = FullPermissions("client1", "client2")
 	}
 	c.Net = &Transport{c: c, Plan: map[string]string{}, Seen: map[string]int{}, Fired: map[string]int{}}
+	if cfg.NameFmt == "" {
+		cfg.NameFmt = "signer-%02d"
+	}
 	peerMap := map[uint64]string{}
 	for i, id := range cfg.IDs {
-		name := fmt.Sprintf("signer-%02d", i+1)
+		name := fmt.Sprintf(cfg.NameFmt, i+1)
 		peerMap[id] = fmt.Sprintf("%s:%d", name, 9000+i)
 	}
 	order := cfg.Order
@@ -106,7 +110,7 @@ func NewCluster(t *testing.T, rc *RunCtx, s *Sched, cfg ClusterCfg) *Cluster {
 		order = cfg.IDs
 	}
 	for i, id := range cfg.IDs {
-		n := &Node{ID: id, Name: fmt.Sprintf("signer-%02d", i+1), Port: uint32(9000 + i), c: c}
+		n := &Node{ID: id, Name: fmt.Sprintf(cfg.NameFmt, i+1), Port: uint32(9000 + i), c: c}
 		specs := cfg.Specs
 		if specs == nil {
 			specs = []WalletSpec{{Name: "Wallet 3", Kind: "distributed"}}
